@@ -12,7 +12,6 @@ import (
 	"syscall"
 	"time"
 
-	"github.com/vicanso/pike/cache"
 	"github.com/vicanso/pike/config"
 	"verifh/hx"
 )
@@ -555,7 +554,7 @@ func c08StoreWriteCrash(r *hx.Run) {
 			budget.Store(n)
 			armed.Store(true)
 			if history == "purge_then_refetch" {
-				cache.RemoveHTTPCache("", []byte("GET c08.example "+uri))
+				purgeDirect(r, "", "GET c08.example "+uri, map[string]string{"kind": c.Kind})
 				// the purge may or may not have reached the store; it is not judged here
 			}
 			get() // the refetch whose persistence is cut short
